@@ -31,6 +31,20 @@ package main
 //	                                  proxy is served the complete state (coldstart-served-uninitialised)
 //	gate cold:uninitialised-context   ready, but no push ever initialised the context: the proxy must be served
 //	                                  the same as a proxy of the warm instance (coldstart-served-uninitialised)
+//
+// With a cut spec (h.Cut) the client that goes through an init:* / push:* gate is a RECONNECTING one: it was
+// connected before, holds the state of that time and presents it (versions, nonces in half of the cases, names,
+// initial_resource_versions, first requests in a random type order) - retained state combined with the
+// registration window.
+//
+// Admission (Stream / StreamDeltas / initConnection refuse a stream before anything is registered): the proxy
+// holds state from an earlier stream, is refused, and retries once the reason is gone:
+//
+//	gate admit:rate-limit             WaitForRequestLimit fails (codes.ResourceExhausted)
+//	gate admit:ztunnel-without-ambient  a ztunnel node on an instance without PILOT_ENABLE_AMBIENT
+//
+// clause admission-refusal-leaves-state: the refused stream got a response, returned no error, or left a
+// connection registered; the retry is judged like any reconnect (init-window-missed-snapshot = stale vs fresh).
 
 import (
 	"bytes"
@@ -43,6 +57,7 @@ import (
 	"sync/atomic"
 	"time"
 
+	"golang.org/x/time/rate"
 	"google.golang.org/grpc/status"
 
 	"istio.io/istio/pilot/pkg/model"
@@ -101,11 +116,44 @@ func genInitrace(r *wire.Rng) *History {
 		"init:after-addcon", "push:after-publish", "push:after-enqueue", "push:after-enqueue", "cold:not-ready", "cold:uninitialised-context"})
 	h.Proto = wire.Pick(r, []string{"sotw", "delta"})
 	h.Explicit = r.Chance(1, 2)
+	if (strings.HasPrefix(h.Gate, "init:") || strings.HasPrefix(h.Gate, "push:")) && r.Chance(1, 2) {
+		h.Cut = &CutSpec{Mode: "quiet", Order: permute(r, envoyTypes), KeepNonce: r.Chance(1, 2)}
+	}
+	if r.Chance(1, 8) {
+		h.Gate = wire.Pick(r, []string{"admit:rate-limit", "admit:ztunnel-without-ambient"})
+		h.Cut = nil
+	}
 	return h
+}
+
+// gatedClient: the client that will go through the gate - brand-new, or (cut spec) one that was connected
+// before and retained what it held then.
+func gatedClient(st *site, h *History, stt *stats) (*envoy, connectOpts, *result) {
+	e := newEnvoy(h.Proto, h.Proto == "delta", "app-"+h.Proto)
+	e.explicit = h.Explicit
+	if h.Cut == nil {
+		return e, connectOpts{}, nil
+	}
+	e.connect(st, connectOpts{})
+	if !st.quiesce(e) {
+		r := timeoutResult("first connection of the reconnecting client", map[string]any{"log": e.streamLog(), "errors": e.errors()})
+		e.disconnect()
+		return nil, connectOpts{}, &r
+	}
+	e.disconnect()
+	if !st.quiesce() {
+		r := timeoutResult("after the first connection", nil)
+		return nil, connectOpts{}, &r
+	}
+	stt.Reconnects["gated-client-retains-state"]++
+	stt.Retained += countHeld(e.snapshot(), envoyTypes)
+	return e, connectOpts{order: h.Cut.Order, keepNonce: h.Cut.KeepNonce}, nil
 }
 
 func runInitrace(h *History, stt *stats) result {
 	switch {
+	case strings.HasPrefix(h.Gate, "admit:"):
+		return runAdmission(h, stt)
 	case strings.HasPrefix(h.Gate, "push:"):
 		return runPushGate(h, stt)
 	case strings.HasPrefix(h.Gate, "cold:"):
@@ -117,6 +165,10 @@ func runInitrace(h *History, stt *stats) result {
 	defer st.close()
 	d := st.s.Discovery
 
+	e, copts, bad := gatedClient(st, h, stt)
+	if bad != nil {
+		return *bad
+	}
 	arrived := make(chan struct{}, 1)
 	release := make(chan struct{})
 	var once atomic.Bool
@@ -135,9 +187,7 @@ func runInitrace(h *History, stt *stats) result {
 		}
 	}()
 
-	e := newEnvoy(h.Proto, h.Proto == "delta", "app-"+h.Proto)
-	e.explicit = h.Explicit
-	e.connect(st, connectOpts{})
+	e.connect(st, copts)
 	defer e.disconnect()
 	select {
 	case <-arrived:
@@ -284,6 +334,10 @@ func runPushGate(h *History, stt *stats) result {
 	defer st.close()
 	d := st.s.Discovery
 
+	e, copts, bad := gatedClient(st, h, stt)
+	if bad != nil {
+		return *bad
+	}
 	arrived := make(chan struct{}, 1)
 	release := make(chan struct{})
 	var once atomic.Bool
@@ -319,9 +373,7 @@ func runPushGate(h *History, stt *stats) result {
 	// initialises now is not in the push round (after-enqueue) or may not be (after-publish)
 	publishedAtGate := xds.VerifE2EGlobalPushContext(d) != before
 
-	e := newEnvoy(h.Proto, h.Proto == "delta", "app-"+h.Proto)
-	e.explicit = h.Explicit
-	e.connect(st, connectOpts{})
+	e.connect(st, copts)
 	defer e.disconnect()
 	if !waitClientCalm(e) {
 		return timeoutResult("client while Push is parked at "+gate, map[string]any{"log": e.streamLog(), "errors": e.errors()})
@@ -502,6 +554,101 @@ func runColdStartHere(h *History, stt *stats) result {
 		return result{Clause: "coldstart-served-uninitialised", Detail: map[string]any{"n": len(df), "diff": limitDiffs(df, 6),
 			"a": "proxy that connected to the starting instance", "b": "proxy of the warm instance", "errors": errs,
 			"context_initialised": cold.InitDone.Load(), "log": e.streamLog()}}
+	}
+	return result{OK: true, Summary: "initrace gate=" + h.Gate + " proto=" + h.Proto + " held=" + itoa(countHeld(e.snapshot(), envoyTypes))}
+}
+
+// runAdmission: a proxy that holds state from an earlier stream is refused at the door and retries.
+func runAdmission(h *History, stt *stats) result {
+	w := h.baseWorld()
+	st := newSite(w, time.Duration(h.Debounce)*time.Millisecond)
+	stt.Servers++
+	defer st.close()
+	d := st.s.Discovery
+	delta := h.Proto == "delta"
+	e := newEnvoy(h.Proto, delta, "app-"+h.Proto)
+	e.explicit = h.Explicit
+	e.connect(st, connectOpts{})
+	if !st.quiesce(e) {
+		e.disconnect()
+		return timeoutResult("first connection", map[string]any{"log": e.streamLog(), "errors": e.errors()})
+	}
+	e.disconnect()
+	// the change made while the proxy is away
+	for _, o := range h.Steps[0] {
+		in := d.InboundUpdates.Load()
+		if err := st.apply(w, o); err != nil {
+			return result{Clause: "harness-apply-error", Detail: map[string]any{"op": o, "err": err.Error()}}
+		}
+		stt.Ops[o.K]++
+		st.awaitInbound(in, 2*time.Second)
+	}
+	if !st.quiesce() {
+		return timeoutResult("server quiescence while away", nil)
+	}
+	stt.Cuts["gate:"+h.Gate]++
+
+	refusedClient := e
+	var restore func()
+	switch h.Gate {
+	case "admit:rate-limit":
+		old := d.RequestRateLimit
+		lim := rate.NewLimiter(rate.Limit(0.0001), 1)
+		lim.Allow() // the only token is gone: the next stream waits a second and gives up
+		d.RequestRateLimit = lim
+		restore = func() { d.RequestRateLimit = old }
+	case "admit:ztunnel-without-ambient":
+		// the same workload announces itself as a ztunnel; the instance runs without PILOT_ENABLE_AMBIENT
+		refusedClient = newEnvoy(h.Proto, delta, "app-"+h.Proto)
+		refusedClient.nodeID = "ztunnel~10.30.0.9~app-" + h.Proto + "." + proxyNs + "~" + proxyNs + ".svc.cluster.local"
+		restore = func() {}
+	default:
+		return result{Clause: "harness-bad-history", Detail: map[string]any{"err": "unknown gate " + h.Gate}}
+	}
+	s := refusedClient.connect(st, connectOpts{expectRefusal: true})
+	select {
+	case <-s.done:
+	case <-time.After(5 * time.Second):
+	}
+	refusedClient.mu.Lock()
+	returned := false
+	var err error
+	select {
+	case <-s.done:
+		returned, err = true, s.err
+	default:
+	}
+	nresp := s.nResp
+	refusedClient.mu.Unlock()
+	registered := len(d.AllClients())
+	restore()
+	if !returned || err == nil || nresp > 0 || registered > 0 {
+		refusedClient.disconnect()
+		code := "stream still open"
+		if returned {
+			code = status.Code(err).String()
+		}
+		return result{Clause: "admission-refusal-leaves-state", Detail: map[string]any{"gate": h.Gate, "stream_result": code, "responses": nresp,
+			"connections_registered": registered, "log": refusedClient.streamLog()}}
+	}
+	refusedClient.disconnect()
+	// the retry, with what the proxy retained
+	e.connect(st, connectOpts{keepNonce: true})
+	defer e.disconnect()
+	if !st.quiesce(e) {
+		return timeoutResult("retry after the refusal", map[string]any{"log": e.streamLog(), "errors": e.errors()})
+	}
+	df, tr := compareWithFresh(st, h, e, stt)
+	if tr != nil {
+		return *tr
+	}
+	stt.client(e)
+	if errs := e.errors(); len(errs) > 0 {
+		return result{Clause: "harness-client-error", Detail: map[string]any{"errors": errs}}
+	}
+	if len(df) > 0 {
+		return result{Clause: "init-window-missed-snapshot", Detail: map[string]any{"n": len(df), "diff": limitDiffs(df, 6),
+			"a": "proxy that was refused (" + h.Gate + ") and retried", "b": "fresh client", "log": e.streamLog()}}
 	}
 	return result{OK: true, Summary: "initrace gate=" + h.Gate + " proto=" + h.Proto + " held=" + itoa(countHeld(e.snapshot(), envoyTypes))}
 }
